@@ -31,6 +31,42 @@ LOCAL Logic(f, a, b, n) ==
      [] f = "mpn_xor_n" -> ZXor(a, b)
      [] f = "mpn_xnor_n" -> NotN(ZXor(a, b), n)
 
+(* ---- %F conversions (C18: "mpf_t conversions only ever generate as many digits as can be accurately represented by the operand, the same as
+   mpf_get_str does.  Zeros will be used if necessary to pad to the requested precision"): the printed decimal denotes the operand to within one
+   unit of its last GENERATED digit, where at least min(printed significant digits, digits mpf_get_str can produce for that precision) are generated.
+   text = [-]ddd[.ddd][e(+|-)dd]; the operand is mant * 2^(64*(exp - |sz|)) ---- *)
+LOCAL ChN(t, k) == SubSeq(t, k, k)
+RECURSIVE FindChN(_, _, _)
+FindChN(t, c, k) == IF k > Len(t) THEN 0 ELSE IF ChN(t, k) = c THEN k ELSE FindChN(t, c, k + 1)
+RECURSIVE LeadZeros(_, _)
+LeadZeros(t, k) == IF k > Len(t) \/ ChN(t, k) # "0" THEN 0 ELSE 1 + LeadZeros(t, k + 1)
+Dec10 == "0123456789"
+PrintfFOK(text, mant, expl, szl, precl) ==
+   LET neg == Len(text) > 0 /\ ChN(text, 1) = "-"
+       t1 == IF neg THEN SubSeq(text, 2, Len(text)) ELSE text
+       ke == FindChN(t1, "e", 1)
+       body == IF ke = 0 THEN t1 ELSE SubSeq(t1, 1, ke - 1)
+       e10 == IF ke = 0 THEN 0 ELSE LET es == SubSeq(t1, ke + 1, Len(t1))  v == ZToInt(ZFromDigits(SubSeq(es, 2, Len(es)), 10, Dec10)) IN IF ChN(es, 1) = "-" THEN -v ELSE v
+       kp == FindChN(body, ".", 1)
+       ip == IF kp = 0 THEN body ELSE SubSeq(body, 1, kp - 1)
+       fp == IF kp = 0 THEN "" ELSE SubSeq(body, kp + 1, Len(body))
+       ds == ip \o fp
+       D == ZFromDigits(ds, 10, Dec10)
+       sigprinted == Len(ds) - LeadZeros(ds, 1)                               \* digits from the first non-zero one
+       sigmax == Len(ZDigits(ZPow2(64 * (precl - 1)), 10, Dec10)) + 1         \* 2 + floor(64 (prec-1) log10 2): what mpf_get_str produces at most
+       G == IF sigprinted < sigmax THEN sigprinted ELSE sigmax
+       u10 == e10 - Len(fp) + (sigprinted - G)                                \* the bound is 10^u10
+       asz == IF szl < 0 THEN -szl ELSE szl
+       e2 == 64 * (expl - asz)                                                 \* operand = mant * 2^e2
+       am == ZAbs(mant)
+       \* compare | D * 10^(e10 - Len(fp)) - am * 2^e2 | < 10^u10 : scale by 10^s10 * 2^s2 to integers
+       lo10 == IF e10 - Len(fp) < u10 THEN e10 - Len(fp) ELSE u10
+       s10 == IF lo10 < 0 THEN -lo10 ELSE 0
+       s2 == IF e2 < 0 THEN -e2 ELSE 0
+       lhs == ZAbs(ZSub(ZShl(ZMul(D, ZPow("a", e10 - Len(fp) + s10)), s2), ZMul(ZShl(am, e2 + s2), ZPow("a", s10))))
+       rhs == ZShl(ZPow("a", u10 + s10), s2)
+   IN  /\ Len(ds) > 0 /\ StrFirstBad(ds, 10, Dec10) >= Len(ds)
+       /\ IF mant = "0" THEN D = "0" ELSE (neg = ZIsNeg(mant) \/ D = "0") /\ ZLt(lhs, rhs)
 RECURSIVE ErrSum(_, _, _, _)
 ErrSum(y, n, cs, k) == IF k > n THEN "0" ELSE ZAdd(ZMul(cs[k], ZLowBits(ZShr(y, 64 * (n - k)), 64)), ErrSum(y, n, cs, k + 1))     \* c[k] * y[n-k]
 PostN(f, i, o) ==
@@ -181,6 +217,7 @@ PostN(f, i, o) ==
            /\ (i.size > 0 => o.buf = SubSeq(i.expect, 1, IF i.size - 1 < Len(i.expect) THEN i.size - 1 ELSE Len(i.expect)))
      [] f = "gmp_asprintf" -> o.ret = Len(i.expect) /\ o.text = i.expect /\ o.blksz = Len(i.expect) + 1
      [] f = "gmp_printf_mixed" -> o.g = i.expect /\ o.ret = Len(i.expect)
+     [] f = "gmp_printf_f" -> o.ret = Len(o.text) /\ PrintfFOK(o.text, i.mant, i.exp, i.sz, i.prec)
      [] f = "gmp_printf_hp" -> o.ret = o.len /\ o.len > 0          \* operand of 20000 bits precision: the count is the length (the AddressSanitizer pass watches the table accesses)
      [] f = "gmp_sscanf" -> /\ o.ret = i.nfields /\ o.v = i.v
                             /\ \A k \in DOMAIN o.alt : o.alt[k].r = i.nfields /\ o.alt[k].v = i.v       \* gmp_fscanf, gmp_scanf (redirected stdin) and the va_list twins
